@@ -131,7 +131,10 @@ class ProgramCheck(object):
             name = info['name']
             pos = (info['line'], info['col'])
             for k in o.sites:
-                delivered_anywhere.add(k)
+                # C02 speaks about bindings read in their own body (closure / class-body reads of outer names are C01's)
+                ks = ins.sites[k]
+                if ks['scope'] == info['scope'] and not ks['declared_elsewhere']:
+                    delivered_anywhere.add(k)
             if o.paths == 0:
                 self.stat('reads_never_reached')
                 continue
